@@ -1172,6 +1172,50 @@ def _fix_async_yield_from(tree):
     return Fix().visit(tree)
 
 
+class _ParenUnparser(ast._Unparser):
+    """ast.unparse of the 3.12 host drops parentheses that older grammars still need (`return *a, b`, `x[*a,]`, `x += *a,`,
+    `for i in *a, b`, unparenthesised walrus / yield in some positions). Parentheses are not part of the tree, so spelling every
+    tuple, walrus and yield with them gives the same program in a form every interpreter that has the construct can read."""
+
+    def visit_Tuple(self, node):
+        with self.delimit('(', ')'):
+            self.items_view(self.traverse, node.elts)
+
+    def visit_Subscript(self, node):
+        if isinstance(node.slice, ast.Tuple) and node.slice.elts and not any(isinstance(e, ast.Slice) for e in node.slice.elts):
+            self.set_precedence(ast._Precedence.ATOM, node.value)
+            self.traverse(node.value)
+            with self.delimit('[', ']'):
+                self.traverse(node.slice)
+        else:
+            ast._Unparser.visit_Subscript(self, node)
+
+    def visit_NamedExpr(self, node):
+        with self.delimit('(', ')'):
+            self.set_precedence(ast._Precedence.ATOM, node.target, node.value)
+            self.traverse(node.target)
+            self.write(' := ')
+            self.traverse(node.value)
+
+    def visit_Yield(self, node):
+        with self.delimit('(', ')'):
+            self.write('yield')
+            if node.value:
+                self.write(' ')
+                self.set_precedence(ast._Precedence.ATOM, node.value)
+                self.traverse(node.value)
+
+    def visit_YieldFrom(self, node):
+        with self.delimit('(', ')'):
+            self.write('yield from ')
+            self.set_precedence(ast._Precedence.ATOM, node.value)
+            self.traverse(node.value)
+
+
+def paren_unparse(tree):
+    return _ParenUnparser().visit(tree)
+
+
 @st.composite
 def programs(draw, profile='syntax', level=None, size=None, must_compile=True, **cfgkw):
     if level is None:
@@ -1183,8 +1227,11 @@ def programs(draw, profile='syntax', level=None, size=None, must_compile=True, *
     tree = g.module()
     tree = _fix_async_yield_from(tree)
     ast.fix_missing_locations(tree)
+    parens = level < (3, 11) and draw(st.booleans())
     try:
-        src = ast.unparse(tree)
+        src = paren_unparse(tree) if parens else ast.unparse(tree)
+        if parens:
+            g.features.add('explicit-parentheses')
     except (ValueError, RecursionError):
         # ast.unparse cannot spell some f-strings (backslash in expression part) -- out of domain
         from hypothesis import reject
